@@ -166,3 +166,53 @@ package state
 //@   requires s != nil && ctx != nil && amount != nil
 //@   ensures err == nil ==> Ledger() == old(Ledger()) && GSupply == old(GSupply)
 //@   ensures err == nil ==> mapEq(GActS, old(GActS)) && mapEq(GDebS, old(GDebS)) && mapEq(GDelSum, old(GDelSum)) && mapEq(GDebSum, old(GDebSum))
+
+//@ ghost func ShareGap(a staking.Address) int { return GActS[a] - GDelSum[a] }
+//@ ghost func DebGap(a staking.Address) int { return GDebS[a] - GDebSum[a] }
+//@ ghost func SharesConsistentWithOld() bool { return forall a staking.Address :: ShareGap(a) == old(ShareGap(a)) && DebGap(a) == old(DebGap(a)) }
+
+//@ func ImmutableState.RewardSchedule
+//@   trusted
+//@   modifies nothing
+//@   ensures err == nil ==> (forall i int :: 0 <= i && i < len(result0) ==> QV(&result0[i].Scale) >= 0)
+//@   ensures err == nil ==> allocated(result0)
+
+//@ func MutableState.computeCommission
+//@   props C05 C15
+//@   requires s != nil && total != nil && QV(total) >= 0 && (rate == nil || QV(rate) >= 0)
+//@   modifies nothing
+//@   ensures err != nil ==> result0 == nil && result1 == nil
+//@   ensures err == nil ==> fresh(result0) && fresh(result1) && result0 != result1
+//@   ensures err == nil ==> QV(result0) >= 0 && QV(result1) >= 0 && QV(result0) + QV(result1) == QV(total)
+
+//@ func MutableState.SlashEscrow
+//@   props C05 C15
+//@   requires s != nil && ctx != nil && amount != nil && QV(amount) >= 0
+//@   ensures err == nil ==> Ledger() == old(Ledger()) && GSupply == old(GSupply) && GGovDep == old(GGovDep) && GLastFees == old(GLastFees)
+//@   ensures err == nil ==> mapEq(GActS, old(GActS)) && mapEq(GDebS, old(GDebS)) && mapEq(GDelSum, old(GDelSum)) && mapEq(GDebSum, old(GDebSum))
+//@   ensures err == nil ==> fresh(result0) && QV(result0) >= 0 && GCommon == old(GCommon) + QV(result0)
+//@   ensures err == nil ==> QV(result0) == (old(GActB[fromAddr]) - GActB[fromAddr]) + (old(GDebB[fromAddr]) - GDebB[fromAddr])
+//@   ensures err == nil && old(GActB[fromAddr]) + old(GDebB[fromAddr]) > 0 ==> old(GActB[fromAddr]) - GActB[fromAddr] == min(old(GActB[fromAddr]), div(old(GActB[fromAddr]) * QV(amount), old(GActB[fromAddr]) + old(GDebB[fromAddr])))
+//@   ensures err == nil && old(GActB[fromAddr]) + old(GDebB[fromAddr]) > 0 ==> old(GDebB[fromAddr]) - GDebB[fromAddr] == min(old(GDebB[fromAddr]), div(old(GDebB[fromAddr]) * QV(amount), old(GActB[fromAddr]) + old(GDebB[fromAddr])))
+
+//@ func MutableState.TransferFromCommon
+//@   props C05
+//@   requires s != nil && ctx != nil && amount != nil && QV(amount) >= 0
+//@   ensures err == nil ==> Ledger() == old(Ledger()) && GSupply == old(GSupply) && GGovDep == old(GGovDep) && GLastFees == old(GLastFees)
+//@   ensures err == nil ==> SharesConsistentWithOld()
+
+//@ func MutableState.AddRewardSingleAttenuated
+//@   props C05
+//@   requires s != nil && ctx != nil && factor != nil && QV(factor) >= 0
+//@   ensures err == nil ==> Ledger() == old(Ledger()) && GSupply == old(GSupply) && GGovDep == old(GGovDep) && GLastFees == old(GLastFees)
+//@   ensures err == nil ==> SharesConsistentWithOld()
+
+//@ func MutableState.AddRewards
+//@   props C05
+//@   requires s != nil && ctx != nil && factor != nil && QV(factor) >= 0
+//@   ensures err == nil ==> Ledger() == old(Ledger()) && GSupply == old(GSupply) && GGovDep == old(GGovDep) && GLastFees == old(GLastFees)
+//@   ensures err == nil ==> SharesConsistentWithOld()
+//@   loop 2 invariant commonPool != nil && QV(commonPool) >= 0 && allocated(commonPool)
+//@   loop 2 invariant GAcctSum + QV(commonPool) == old(GAcctSum) + old(GCommon)
+//@   loop 2 invariant GCommon == old(GCommon) && GGovDep == old(GGovDep) && GLastFees == old(GLastFees) && GSupply == old(GSupply)
+//@   loop 2 invariant SharesConsistentWithOld()
